@@ -253,7 +253,7 @@ impl MergeRig {
 
 /// Return addresses for which send_to on an IPv4 UDP socket fails on this host (each verified by a
 /// probe send): an IPv6 address, port 0, the broadcast address without SO_BROADCAST.
-fn unsendable_addresses() -> Vec<std::net::SocketAddr> {
+pub fn unsendable_addresses() -> Vec<std::net::SocketAddr> {
     let probe = match std::net::UdpSocket::bind("127.0.0.1:0") {
         Ok(s) => s,
         Err(_) => return vec![],
